@@ -70,4 +70,8 @@ VariantsAgree == (stage = 2 /\ SeqRange(s) \cap Marks = {}) =>
                    /\ LET d == Flatten([i \in DOMAIN s |-> Decomp(s[i])]) IN
                       /\ Tokenize(Lang, d, FALSE).chars = Tokenize(Lang, s, FALSE).chars
                       /\ Tokenize(Lang, d, FALSE).source = Tokenize(Lang, s, FALSE).source
+\* beyond the listed properties: normalisation is idempotent on text without free-standing combining marks, and
+\* lower-casing after it is stable (what the tokeniser calls `chars` can be fed back as a query unchanged)
+Idempotent == (stage = 2 /\ SeqRange(s) \cap Marks = {}) =>
+                LET once == Tokenize(Lang, s, TRUE).chars IN Tokenize(Lang, once, TRUE).chars = once
 =============================================================================
